@@ -1,9 +1,11 @@
 package drv
 
 import (
+	"hash/fnv"
 	"strconv"
 
 	"github.com/avfs/avfs"
+	"github.com/avfs/avfs/vfs/basepathfs"
 	"github.com/avfs/avfs/vfs/failfs"
 	"github.com/avfs/avfs/vfs/rofs"
 
@@ -80,12 +82,14 @@ func sameInts(a, b []int) bool {
 func (s *Session) Step(tr string, i int, c Call, names []string) Event {
 	normCall(&c)
 	s.cons = []string{}
+	s.leak = false
 	res := s.Exec(c)
 	cons := s.cons
+	leak := s.leak
 	s.quiet = true
 	snap := s.Project(names)
 	s.quiet = false
-	ev := Event{Tr: tr, I: i, Fs: s.Target, Call: c, Res: res, Post: snap.Post, Hs: snap.Hs, Cwd: snap.Cwd, Srt: snap.Srt, Inv: "ok", Cons: cons}
+	ev := Event{Tr: tr, I: i, Fs: s.Target, Call: c, Res: res, Post: snap.Post, Hs: snap.Hs, Cwd: snap.Cwd, Srt: snap.Srt, Inv: "ok", Cons: cons, Leak: leak}
 
 	if ev.Cwd.Parts == nil {
 		ev.Cwd.Parts = []string{}
@@ -104,6 +108,20 @@ func (s *Session) Step(tr string, i int, c Call, names []string) Event {
 	}
 
 	return ev
+}
+
+func sameHs(a, b []HandleView) bool {
+	if len(a) != len(b) {
+		return false
+	}
+
+	for i := range a {
+		if a[i] != b[i] {
+			return false
+		}
+	}
+
+	return true
 }
 
 func sameSeq(a, b []string) bool {
@@ -131,6 +149,9 @@ func (s *Session) WrapWith(tr string, i int, kind string, names []string) Event 
 	switch {
 	case kind == "rofs":
 		s.FS = rofs.New(s.Base)
+	case kind == "basepath":
+		s.BasePath = "/" + WorkDir + "/B"
+		s.FS = basepathfs.New(s.Base, s.BasePath)
 	case kind == "failro":
 		f := failfs.New(s.Base)
 		_ = f.SetFailFunc(failfs.ReadOnlyFunc)
@@ -277,8 +298,9 @@ func BuildCalls(pre []Entry, noIdm bool) []Call {
 type EdgeResult struct {
 	Idx    int     `json:"idx"`
 	Target string  `json:"target"`
-	Status string  `json:"status"` // "ok" | "mismatch" | "unreach" | "skip"
-	How    string  `json:"how"`    // "hist" | "built"
+	Status string  `json:"status"` // "ok" | "explained" | "mismatch" | "unreach" | "skip"
+	Kf     string  `json:"kf,omitempty"`
+	How    string  `json:"how"` // "hist" | "built"
 	Why    string  `json:"why,omitempty"`
 	Trace  []Event `json:"trace,omitempty"`
 	Edge   *Edge   `json:"edge,omitempty"`
@@ -286,7 +308,8 @@ type EdgeResult struct {
 
 // ReplayStats summarises a replay run.
 type ReplayStats struct {
-	Edges, OK, Mismatch, Unreach, Skipped, Built int
+	Edges, OK, Mismatch, Unreach, Skipped, Built, Explained, Corrupt int
+	Kf                                                               map[string]int
 }
 
 // Applicable tells whether a call is within the features a target advertises.
@@ -299,7 +322,20 @@ func Applicable(target string, c Call) bool {
 
 		// OrefaFS does not know its own root directory under the name "/" (known finding KF09,
 		// witnessed separately): calls that name it are not issued.
-		isRoot := func(p Path) bool { return p.Abs && len(p.Parts) == 0 }
+		isRoot := func(p Path) bool {
+			if p.Abs {
+				return len(cleanParts(p.Parts)) == 0
+			}
+
+			// a relative path that climbs: it may end at the root directory
+			for _, c := range p.Parts {
+				if c == ".." {
+					return true
+				}
+			}
+
+			return len(p.Parts) > 0 && len(cleanParts(p.Parts)) == 0
+		}
 		if isRoot(c.P) || ((c.Op == "rename" || c.Op == "link") && isRoot(c.Q)) {
 			return false
 		}
@@ -310,59 +346,125 @@ func Applicable(target string, c Call) bool {
 
 // ReplayEdges reads TLC edges, replays the shard's share against fresh sessions and writes one
 // EdgeResult line for every edge that did not conform.
-func ReplayEdges(f *Factory, in io.Reader, out io.Writer, shard, nshard int, names []string) (ReplayStats, error) {
+func ReplayEdges(f *Factory, in io.ReadSeeker, out io.Writer, shard, nshard int, names []string) (ReplayStats, error) {
 	var st ReplayStats
 
-	sc := bufio.NewScanner(in)
-	sc.Buffer(make([]byte, 1<<20), 1<<28)
+	// Lines are assigned to shards by the key (wrapper, histories, call) so that a transition and the lines
+	// carrying its alternative outcomes meet in the same process. First pass: collect the alternatives.
+	alts := map[string][]Alt{}
 
-	w := bufio.NewWriter(out)
-	defer w.Flush()
+	keyOf := func(e *Edge) string {
+		b, _ := json.Marshal([]any{e.Wrap, e.Hist, e.Wh, e.Call})
 
-	enc := json.NewEncoder(w)
-	idx := -1
+		return string(b)
+	}
 
-	for sc.Scan() {
-		idx++
-		if idx%nshard != shard {
-			continue
-		}
+	mine := func(k string) bool {
+		h := fnv.New32a()
+		_, _ = h.Write([]byte(k))
 
-		var e Edge
-		if err := DecodeTLC(sc.Bytes(), &e); err != nil {
-			return st, fmt.Errorf("edge %d: %w", idx, err)
-		}
+		return int(h.Sum32()%uint32(nshard)) == shard
+	}
 
-		st.Edges++
-
-		r, err := f.replayEdge(idx, &e, names)
-		if err != nil {
+	for pass := 0; pass < 2; pass++ {
+		if _, err := in.Seek(0, io.SeekStart); err != nil {
 			return st, err
 		}
 
-		switch r.Status {
-		case "ok":
-			st.OK++
-		case "mismatch":
-			st.Mismatch++
-		case "unreach":
-			st.Unreach++
-		case "skip":
-			st.Skipped++
+		sc := bufio.NewScanner(in)
+		sc.Buffer(make([]byte, 1<<20), 1<<28)
+
+		var w *bufio.Writer
+
+		var enc *json.Encoder
+
+		if pass == 1 {
+			w = bufio.NewWriter(out)
+			enc = json.NewEncoder(w)
 		}
 
-		if r.How == "built" {
-			st.Built++
+		idx := -1
+
+		for sc.Scan() {
+			idx++
+
+			var e Edge
+			if err := DecodeTLC(sc.Bytes(), &e); err != nil {
+				// a line damaged by concurrent appends of TLC workers (only lines above 8 KiB can be)
+				if pass == 0 {
+					st.Corrupt++
+				}
+
+				continue
+			}
+
+			k := keyOf(&e)
+			if !mine(k) {
+				continue
+			}
+
+			if pass == 0 {
+				if e.T == "alt" && e.Alt != nil {
+					alts[k] = append(alts[k], *e.Alt)
+				}
+
+				continue
+			}
+
+			if e.T == "alt" {
+				continue
+			}
+
+			e.Alts = alts[k]
+			st.Edges++
+
+			r, err := f.replayEdge(idx, &e, names)
+			if err != nil {
+				return st, err
+			}
+
+			switch r.Status {
+			case "explained":
+				st.Explained++
+
+				if st.Kf == nil {
+					st.Kf = map[string]int{}
+				}
+
+				st.Kf[r.Kf]++
+			case "ok":
+				st.OK++
+			case "mismatch":
+				st.Mismatch++
+			case "unreach":
+				st.Unreach++
+			case "skip":
+				st.Skipped++
+			}
+
+			if r.How == "built" {
+				st.Built++
+			}
+
+			if r.Status == "mismatch" || r.Status == "unreach" {
+				if err := enc.Encode(r); err != nil {
+					return st, err
+				}
+			}
 		}
 
-		if r.Status == "mismatch" || r.Status == "unreach" {
-			if err := enc.Encode(r); err != nil {
+		if err := sc.Err(); err != nil {
+			return st, err
+		}
+
+		if w != nil {
+			if err := w.Flush(); err != nil {
 				return st, err
 			}
 		}
 	}
 
-	return st, sc.Err()
+	return st, nil
 }
 
 func (f *Factory) replayEdge(idx int, e *Edge, names []string) (EdgeResult, error) {
@@ -453,9 +555,9 @@ func (f *Factory) replayEdge(idx int, e *Edge, names []string) (EdgeResult, erro
 		// the source state of a wrapper edge is the state after the earlier wrapper calls; when the implementation
 		// left the specification's path before, the prefix is what trace validation has to judge
 		if !EqualPost(trace[len(trace)-1].Post, f.adapt(e.Pre)) {
+			// (every prefix of the wrapper history is an edge of its own and is judged there)
 			r.Status = "unreach"
 			r.Why = "state before the call differs from the specification's"
-			r.Trace = trace
 
 			return r, nil
 		}
@@ -481,10 +583,38 @@ func (f *Factory) replayEdge(idx int, e *Edge, names []string) (EdgeResult, erro
 		okInv = false // a modification time of the base changed under a read-only wrapper
 	}
 
-	if okRes && okPost && okCwd && okInv {
+	okHs := e.Hs == nil || sameHs(ev.Hs, e.Hs)
+
+	if okRes && okPost && okCwd && okInv && okHs {
 		r.Status = "ok"
 
 		return r, nil
+	}
+
+	// does the step equal what an open deviation of the catalogue admits (computed by TLC for this transition)?
+	if okInv || ev.Inv != "ok" {
+		for _, a := range e.Alts {
+			if a.Impl != f.Target {
+				continue
+			}
+
+			if a.Res.Err == "PANIC" || a.Res.Err == "DEADLOCK" {
+				if ev.Res.Err == a.Res.Err {
+					r.Status, r.Kf = "explained", a.Kf
+
+					return r, nil
+				}
+
+				continue
+			}
+
+			if ResEqual(e.Call.Op, ev.Res, a.Res) && EqualPost(ev.Post, f.adapt(a.Post)) && ev.Cwd.Render() == a.Cwd.Render() &&
+				sameHs(ev.Hs, a.Hs) && ev.Srt && ev.Inv == "ok" && !(e.Wrap != "" && len(trace) > 1 && (e.Wrap == "rofs" || e.Wrap == "failro") && trace[len(trace)-2].Mt != ev.Mt) {
+				r.Status, r.Kf = "explained", a.Kf
+
+				return r, nil
+			}
+		}
 	}
 
 	r.Status = "mismatch"
